@@ -551,6 +551,19 @@ class Folder:
                 if r is not None:
                     return r
             raise Undecidable(f"isinstance({args[0]!r}, {norm(e.args[1])})")
+        if fn in ("any", "all") and len(args) == 1 and not kwargs:
+            vals = list(args[0])
+            tv = [self.truth(v, e) for v in vals]
+            return any(tv) if fn == "any" else all(tv)
+        if fn == "round" and not kwargs and all(isinstance(a, (int, float)) for a in args):
+            return round(*args)
+        if fn in ("math.ceil", "math.floor", "ceil", "floor", "np.ceil", "np.floor") and len(args) == 1 and \
+                (isinstance(args[0], (int, float)) or (isinstance(args[0], sp.Basic) and args[0].is_number)):
+            import math as _m
+            return int(_m.ceil(args[0])) if fn.endswith("ceil") else int(_m.floor(args[0]))
+        if fn in ("math.remainder", "math.fmod") and len(args) == 2 and all(isinstance(a, (int, float)) for a in args):
+            import math as _m
+            return getattr(_m, fn.split(".")[1])(*args)
         if fn in ("next", "iter") and not kwargs:
             try:
                 return {"next": next, "iter": iter}[fn](*args)
